@@ -76,6 +76,17 @@ func VerifRevocationDial() {
 		dialled = true
 		return nil, nil
 	}
+	// hosts that are IP literals: a real resolver answers with exactly that address
+	if lit := vp.Choice(5); lit > 0 {
+		host = []string{"", "127.0.0.1", "::1", "10.1.2.3", "93.184.216.34"}[lit]
+		hostAllowed = false
+		ip := net.ParseIP(host)
+		if ip4 := ip.To4(); ip4 != nil {
+			ip = ip4
+		}
+		answers = []net.IPAddr{{IP: ip}}
+		raw = [][]byte{[]byte(ip)}
+	}
 	fn := revocationDialContext(verifResolver{answers}, dial, allowed)
 	_, err := fn(context.Background(), "tcp", net.JoinHostPort(host, "80"))
 	anyBlocked := false
